@@ -117,7 +117,15 @@ class SqlMachine:
         self.trace = []
         self.nconn = 0
         self.fault_used = False
+        self.cell_values = {}
         self._install()
+
+    def row_value(self, row, col):
+        """abstract cell value; `self.cell_values[(table, col)]` pins adversarial concrete values"""
+        v = self.cell_values.get((row.attrs.get("table"), col))
+        if v is not None:
+            return v
+        return Opaque(f"{row.label}[{col}]")
 
     def reset_path(self):
         self.trace = []
@@ -163,6 +171,10 @@ class SqlMachine:
                     mach.ev("fault", f, kind, table)
                     raise Raised(ExcVal(_BUILTIN_EXC[f], node=n, msg="injected", func=I.stack[-1] if I.stack else None))
             cur.attrs["last"] = (kind, table)
+            cur.attrs["sql"] = sql if isinstance(sql, str) else None
+            if cur.attrs.get("pending"):
+                mach.ev("discard-pending", cur.attrs["pending"], kind, table)
+            cur.attrs["pending"] = None
             return cur
         M[("Cursor", "execute")] = execute
         M[("Conn", "execute")] = lambda I, v, a, k, n: execute(I, Obj(kind="Cursor", attrs={"n": v.attrs["n"], "last": None}), a, k, n)
@@ -172,6 +184,11 @@ class SqlMachine:
         def row_for(cur):
             kind, table = cur.attrs.get("last") or (None, None)
             cols = list(mach.tables[table].columns) if table in mach.tables else ["id"]
+            sql = cur.attrs.get("sql")
+            if sql:
+                m = re.match(r"\s*SELECT\s+(.*?)\s+FROM\b", sql, re.I | re.S)
+                if m and m.group(1).strip() != "*":
+                    cols = [c.strip().strip("`\"'") for c in m.group(1).split(",")]
             return Obj(kind="Row", label=f"row:{table}", attrs={"cols": cols, "table": table})
 
         def fetchone(I, cur, a, k, n):
@@ -182,10 +199,18 @@ class SqlMachine:
 
         def fetchall(I, cur, a, k, n):
             c = I.choose(2, f"fetchall:{cur.attrs.get('last')}")
+            cur.attrs["pending"] = None
             return [row_for(cur)] if c == 0 else []
+
+        def fetchmany(I, cur, a, k, n):
+            c = I.choose(2, f"fetchmany:{cur.attrs.get('last')}")
+            if c == 0:
+                cur.attrs["pending"] = cur.attrs.get("last")     # more rows of this result may remain
+                return [row_for(cur)]
+            return []
         M[("Cursor", "fetchone")] = fetchone
         M[("Cursor", "fetchall")] = fetchall
-        M[("Cursor", "fetchmany")] = fetchall
+        M[("Cursor", "fetchmany")] = fetchmany
         M[("Cursor", "__iter__")] = fetchall
         A[("Cursor", "connection")] = lambda I, v, n: Obj(kind="Conn", label=f"conn{v.attrs['n']}", attrs={"n": v.attrs["n"]})
         M[("Cursor", "close")] = lambda I, v, a, k, n: mach.ev("cursor-close", v.attrs["n"])
@@ -194,12 +219,18 @@ class SqlMachine:
 
         def row_get(I, row, a, k, n):
             key = a[0]
-            if isinstance(key, str) and key not in row.attrs["cols"]:
+            cols = row.attrs["cols"]
+            if isinstance(key, str) and key not in cols:
                 raise I.fault("IndexError", n, f"No item with that key: {key}")
-            return Opaque(f"{row.label}[{I.describe(key)}]")
+            if isinstance(key, Num) and key.is_const():
+                i = int(key.value())
+                if i >= len(cols):
+                    raise I.fault("IndexError", n, "row index out of range")
+                key = cols[i]
+            return mach.row_value(row, key)
         M[("Row", "__getitem__")] = row_get
         M[("Row", "keys")] = lambda I, row, a, k, n: list(row.attrs["cols"])
-        M[("Row", "__iter__")] = lambda I, row, a, k, n: [Opaque(f"{row.label}[{c}]") for c in row.attrs["cols"]]
+        M[("Row", "__iter__")] = lambda I, row, a, k, n: [mach.row_value(row, c) for c in row.attrs["cols"]]
         E["json.dumps"] = lambda I, a, k, n: Opaque("json")
         E["json.loads"] = lambda I, a, k, n: Opaque("parsed")
         E["functools.wraps"] = lambda I, a, k, n: Opaque("wraps", callable_=True)
